@@ -485,7 +485,7 @@ func CoqSchema(n *Node, order map[*Node][]string) string {
 	case KCustom:
 		return "(SCustom conv_string " + coqTest(n, &n.Tests[0], "") + ")"
 	case KPre:
-		return fmt.Sprintf("(SPre (PRE %d %s) %s)", n.PreID, map[string]string{"upper": "PreUpper", "trim": "PreTrim", "err": "PreErr", "issue": "PreIssue", "wrap": "PreWrap"}[n.PreOp], CoqSchema(n.Elem, order))
+		return fmt.Sprintf("(SPre (PRE %d %s) %s)", n.PreID, map[string]string{"upper": "PreUpper", "trim": "PreTrim", "err": "PreErr", "issue": "PreIssue", "wrap": "PreWrap", "blank": "PreBlank"}[n.PreOp], CoqSchema(n.Elem, order))
 	}
 	// primitive
 	co := ""
